@@ -499,22 +499,24 @@ theorem exec_usercallP {G : GCtx} (ok : G.OK) (pk : PureOk G.xc) (fuel : Nat) (h
     simp only [List.length_append, ← Nat.add_assoc]
     exact st1.trans (st2.trans hs)
 
-/-- What a call needs of its actuals (the actuals and the callee both run with fuel `f`). -/
+/-- What a call needs of its actuals (the actuals and the callee both run with fuel `f`): the
+    code of the whole calling sequence does what evaluating the actuals and calling does. -/
 structure ArgsOK (G : GCtx) (pi : PInfo) (sp dep : Nat) (hi : Nat → Word) (f : Nat) (args : List X.Expr) : Prop where
-  noexit : ∀ st mem c s, Rep (KOf G pi sp dep hi) st mem → X.evalArgs f G.xc args st ≠ .exit c s
-  sim : ∀ st mem vs s, Rep (KOf G pi sp dep hi) st mem → X.evalArgs f G.xc args st = .ok vs s → Sim st s
-  call : (∀ k, k ≤ f → CallSpec G k) → ∀ pj, pj ∈ G.procs → ∀ (st s : X.St) (vs : List Val) (gs : GS) (code : Code) (gs' : GS) (i : Nat)
+  call : (∀ k, k ≤ f → CallSpec G k) → ∀ pj, pj ∈ G.procs → ∀ (st : X.St) (gs : GS) (code : Code) (gs' : GS) (i : Nat)
       (a b : Word) (mem : Mem),
-    X.evalArgs f G.xc args st = .ok vs s →
     callSeq pj.callKind (optArgsOf G.rho args).length (countCalls (optArgsOf G.rho args))
       (genCallActuals (G.ctxOf pi) (optArgsOf G.rho args))
       (fun p sv => loadActuals (G.ctxOf pi) (optArgsOf G.rho args) p sv) gs = .ok (code, gs') →
     At G.env.ds i (lowerCode G.cg code) → Rep (KOf G pi sp dep hi) st mem →
     gs'.size ≤ G.S pi → pi.p.locals.length ≤ gs.offset → ConstsIn (KOf G pi sp dep hi) gs' →
-    match X.callUser f G.xc pj.p vs s with
-    | .ok res s' => ∃ a' b' mem', Steps G.env (cfg i a b mem) st.io (cfg (i + (lowerCode G.cg code).length) a' b' mem') s'.io ∧
-        Rep (KOf G pi sp dep hi) s' mem' ∧ (pj.p.isFunc = true → ∀ w, res = some w → a' = w)
-    | .exit cd s' => ∃ c, Steps G.env (cfg i a b mem) st.io c s'.io ∧ Exit G.env c s'.io cd
+    match X.evalArgs f G.xc args st with
+    | .ok vs s =>
+      (match X.callUser f G.xc pj.p vs s with
+       | .ok res s' => ∃ a' b' mem', Steps G.env (cfg i a b mem) st.io (cfg (i + (lowerCode G.cg code).length) a' b' mem') s'.io ∧
+           Rep (KOf G pi sp dep hi) s' mem' ∧ (pj.p.isFunc = true → ∀ w, res = some w → a' = w)
+       | .exit cd s' => ∃ c, Steps G.env (cfg i a b mem) st.io c s'.io ∧ Exit G.env c s'.io cd
+       | .undef _ => True)
+    | .exit cd s => ∃ c, Steps G.env (cfg i a b mem) st.io c s.io ∧ Exit G.env c s.io cd
     | .undef _ => True
 
 section
@@ -522,30 +524,36 @@ variable {G : GCtx} (ok : G.OK) {pi : PInfo} (hpi : pi ∈ G.procs) (sp dep : Na
     (hlo : G.lo ≤ sp) (hspv : sp + G.S pi + pi.po + pi.p.formals.length ≤ G.spv + 1) (hstack : G.spv ≤ sp + dep * G.smax)
 include ok hpi hlo hspv hstack
 
-theorem argsOK_pure (f : Nat) (args : List X.Expr) (hp : ∀ e ∈ args, pureE e = true) : ArgsOK G pi sp dep hi f args :=
-  ⟨fun st _ c s _ => evalArgs_pure_no_exit G.xc args f st c s hp,
-   fun st _ vs s _ h => Sim.ofSame (evalArgs_pure G.xc args f st s vs hp h),
-   fun hcs pj hpj st s vs gs code gs' i a b mem hev hg hat hr hsz hnl hci => by
-     have h := exec_usercall ok f (hcs f (Nat.le_refl _)) hpi hpj sp dep hi hlo hspv hstack args f st s vs hp hev gs code gs' i a b mem
-       hg hat hr hsz hnl hci
-     cases hx : X.callUser f G.xc pj.p vs s with
-     | undef w => trivial
-     | exit cd s' => rw [hx] at h; exact h
-     | ok res s' => rw [hx] at h; obtain ⟨a', b', mem', h1, h2, h3, _⟩ := h; exact ⟨a', b', mem', h1, h2, h3⟩⟩
+theorem argsOK_pure (f : Nat) (args : List X.Expr) (hp : ∀ e ∈ args, pureE e = true) : ArgsOK G pi sp dep hi f args := by
+  refine ⟨fun hcs pj hpj st gs code gs' i a b mem hg hat hr hsz hnl hci => ?_⟩
+  cases hev : X.evalArgs f G.xc args st with
+  | undef w => trivial
+  | exit c s => exact absurd hev (evalArgs_pure_no_exit G.xc args f st c s hp)
+  | ok vs s =>
+    simp only
+    have h := exec_usercall ok f (hcs f (Nat.le_refl _)) hpi hpj sp dep hi hlo hspv hstack args f st s vs hp hev gs code gs' i a b mem
+      hg hat hr hsz hnl hci
+    cases hx : X.callUser f G.xc pj.p vs s with
+    | undef w => trivial
+    | exit cd s' => rw [hx] at h; exact h
+    | ok res s' => rw [hx] at h; obtain ⟨a', b', mem', h1, h2, h3, _⟩ := h; exact ⟨a', b', mem', h1, h2, h3⟩
 
 theorem argsOK_pp (pk : PureOk G.xc) (f : Nat) (hleaf : ∀ k, k ≤ f → CallLeaf (KOf G pi sp dep hi) G.pnames k)
     (args : List X.Expr) (hp : ∀ e ∈ args, ppE G.pnames G.xc.impure e = true) : ArgsOK G pi sp dep hi f args := by
   have hps : ∀ g, G.pnames.contains g = true → ∃ p, G.xc.genv.lookup g = some (.proc p) :=
     fun g hg => ok.pnames_mem g (by simpa using hg)
-  exact ⟨fun st mem c s hr => (evalArgs_pp G.xc G.pnames hps pk f args st hp (noLoc_of_rep hr)).2 c s,
-   fun st mem vs s hr h => (evalArgs_pp G.xc G.pnames hps pk f args st hp (noLoc_of_rep hr)).1 vs s h,
-   fun hcs pj hpj st s vs gs code gs' i a b mem hev hg hat hr hsz hnl hci => by
-     have h := exec_usercallP ok pk f (hcs f (Nat.le_refl _)) hpi hpj sp dep hi hlo hspv hstack args f hleaf st s vs hp hev gs code gs' i a b mem
-       hg hat hr hsz hnl hci
-     cases hx : X.callUser f G.xc pj.p vs s with
-     | undef w => trivial
-     | exit cd s' => rw [hx] at h; exact h
-     | ok res s' => rw [hx] at h; obtain ⟨a', b', mem', h1, h2, h3, _⟩ := h; exact ⟨a', b', mem', h1, h2, h3⟩⟩
+  refine ⟨fun hcs pj hpj st gs code gs' i a b mem hg hat hr hsz hnl hci => ?_⟩
+  cases hev : X.evalArgs f G.xc args st with
+  | undef w => trivial
+  | exit c s => exact absurd hev ((evalArgs_pp G.xc G.pnames hps pk f args st hp (noLoc_of_rep hr)).2 c s)
+  | ok vs s =>
+    simp only
+    have h := exec_usercallP ok pk f (hcs f (Nat.le_refl _)) hpi hpj sp dep hi hlo hspv hstack args f hleaf st s vs hp hev gs code gs' i a b mem
+      hg hat hr hsz hnl hci
+    cases hx : X.callUser f G.xc pj.p vs s with
+    | undef w => trivial
+    | exit cd s' => rw [hx] at h; exact h
+    | ok res s' => rw [hx] at h; obtain ⟨a', b', mem', h1, h2, h3, _⟩ := h; exact ⟨a', b', mem', h1, h2, h3⟩
 
 end
 
